@@ -125,6 +125,118 @@ def pc_status(pc, extra=()):
     return "sat", {B.ATOMS.name(a): v for a, v in r.items()}
 
 
+class Space(object):
+    """A fixed universe of at most 16 atoms; every exact Boolean abstract value over it is tabulated as one
+    integer bit set over the 2^k assignments (bit r = value under assignment r, atom j = bit j of r).  Exact and
+    fast path feasibility for the small-window rules (all conditions of a path are ANDed as integers)."""
+
+    def __init__(self, atom_names, constraint=()):
+        self.names = list(atom_names)
+        self.ids = [B.ATOMS.get(x) for x in self.names]
+        self.key = tuple(self.ids)
+        k = len(self.ids)
+        if k > 16:
+            raise Undecided("window of %d atoms" % k)
+        self.k = k
+        self.full = (1 << (1 << k)) - 1
+        self.var = {}
+        for j, a in enumerate(self.ids):
+            m = 0
+            blk = ((1 << (1 << j)) - 1) << (1 << j)
+            step = 1 << (j + 1)
+            for base in range(0, 1 << k, step):
+                m |= blk << base
+            self.var[a] = m
+        self.cache = {}
+        self.base = self.full
+        for c in constraint:
+            self.base &= self.mask(c)
+
+    def __enter__(self):
+        B.ACTIVE[0] = self
+        return self
+
+    def __exit__(self, *exc):
+        B.ACTIVE[0] = None
+        return False
+
+    def bit_mask(self, b):
+        if b is None:
+            return None
+        if b[1] == "sp":
+            return b[2] if b[0] == self.key else None
+        hit = self.cache.get(b)
+        if hit is not None:
+            return hit
+        if not b[0]:
+            m = self.full if b[1] else 0
+        elif b[1] == "os":
+            m = 0
+            for t in b[2]:
+                tm = self.bit_mask(t)
+                if tm is None:
+                    return None
+                m |= tm
+        elif b[1] == "xs":
+            m = self.full if b[3] else 0
+            for mon in b[2]:
+                mm = self.full
+                for a in mon:
+                    if a not in self.var:
+                        return None
+                    mm &= self.var[a]
+                m ^= mm
+        else:
+            atoms, tt = b
+            if any(a not in self.var for a in atoms):
+                return None
+            m = 0
+            for r in range(1 << len(atoms)):
+                if (tt >> r) & 1:
+                    mm = self.full
+                    for j, a in enumerate(atoms):
+                        mm &= self.var[a] if (r >> j) & 1 else (self.full ^ self.var[a])
+                    m |= mm
+        self.cache[b] = m
+        return m
+
+    def mask(self, c):
+        """bit set of a Boolean abstract value, None if not exact over this universe"""
+        if isinstance(c, W):
+            if c.val is not None:
+                return self.full if c.val else 0
+            return self.bit_mask(c.bits[0])
+        if isinstance(c, CS):
+            if c.has_top():
+                return None
+            m = self.full
+            for cl in c.clauses:
+                cm = self.bit_mask(cl)
+                if cm is None:
+                    return None
+                m &= self.full ^ cm
+            return (self.full ^ m) if c.neg else m
+        return None
+
+    def pc_mask(self, pc):
+        m = self.base
+        for c in pc:
+            cm = self.mask(c)
+            if cm is None:
+                return None
+            m &= cm
+            if not m:
+                return 0
+        return m
+
+    def index(self, named):
+        r = 0
+        for j, nm in enumerate(self.names):
+            if named.get(nm):
+                r |= 1 << j
+        return r
+
+
 def compare_bits(got, exp, pc=()):
     """-> (verdict, detail) comparing two bit-value lists (under the path condition pc)"""
     if len(got) != len(exp):
